@@ -218,39 +218,55 @@ func OtherID(code *jen.Statement) *JenID {
 
 // TypeOf creates a Type.
 func TypeOf(t types.Type) *Type {
+	return typeOf(t, map[*types.Named]*Type{})
+}
+
+// typeOf creates a Type. Named types that are currently being created are reused, so that
+// types referring to themselves without a struct in between (type L []L) do not recurse forever.
+func typeOf(t types.Type, inProgress map[*types.Named]*Type) *Type {
 	t = types.Unalias(t)
+	named, isNamed := t.(*types.Named)
+	if isNamed {
+		if rt, ok := inProgress[named]; ok {
+			return rt
+		}
+	}
 	rt := &Type{}
 	rt.T = t
 	rt.String = t.String()
-	applyTo(rt, t)
+	if isNamed {
+		inProgress[named] = rt
+		defer delete(inProgress, named)
+	}
+	applyTo(rt, t, inProgress)
 	return rt
 }
 
-func applyTo(rt *Type, t types.Type) {
+func applyTo(rt *Type, t types.Type, inProgress map[*types.Named]*Type) {
 	switch value := t.(type) {
 	case *types.Pointer:
 		rt.Pointer = true
 		rt.PointerType = value
-		rt.PointerInner = TypeOf(value.Elem())
+		rt.PointerInner = typeOf(value.Elem(), inProgress)
 	case *types.Basic:
 		rt.Basic = true
 		rt.BasicType = value
 	case *types.Map:
 		rt.Map = true
 		rt.MapType = value
-		rt.MapKey = TypeOf(value.Key())
-		rt.MapValue = TypeOf(value.Elem())
+		rt.MapKey = typeOf(value.Key(), inProgress)
+		rt.MapValue = typeOf(value.Elem(), inProgress)
 	case *types.Slice:
 		rt.List = true
-		rt.ListInner = TypeOf(value.Elem())
+		rt.ListInner = typeOf(value.Elem(), inProgress)
 	case *types.Array:
 		rt.List = true
 		rt.ListFixed = true
-		rt.ListInner = TypeOf(value.Elem())
+		rt.ListInner = typeOf(value.Elem(), inProgress)
 	case *types.Named:
 		rt.Named = true
 		rt.NamedType = value
-		applyTo(rt, value.Underlying())
+		applyTo(rt, value.Underlying(), inProgress)
 	case *types.Struct:
 		rt.Struct = true
 		rt.StructType = value
